@@ -67,6 +67,7 @@ STATEMENT_STATUS: Dict[str, str] = {
                                 "joined is tested on generated layouts, not proved",
     "C09_scale_predicates": "proved (all predicates/measures homogeneous, any s > 0)",
     "C09_scale_lines": "proved: group_objects, word spaces and the empty-line split commute with scaling",
+    "C09_scale_neighbours": "proved: the neighbour relation (as a set, through the grid index) is the same at every scale",
     "C09_scale_statement": "full statement for group_textlines - FALSE for the code",
     "C09_scale_cex": "proved counter-example (open finding C09-scale-equal-key-line-order, replayed on the implementation)",
 }
@@ -462,7 +463,7 @@ def scale_check(ctx: C.Ctx, case, batch, ks) -> Optional[C.Failure]:
 
 def run_scale(ctx: C.Ctx, batch) -> None:
     rng = ctx.rng
-    n = ctx.n(120, 700)
+    n = ctx.n(120, 3000)
     ties = TieOracle(ctx)
     for i in range(n):
         if not ctx.time_left():
